@@ -3141,6 +3141,10 @@ def update_working_tree(
 
                 _transition_to_absent(repo, path, full_path, delete_stat, index)
 
+    # Write only after everything that goes away has been removed: a directory
+    # that becomes a file still holds its old entries until they are deleted,
+    # and the tree diff lists the new file before them.
+    for change in changes:
         if change.type in (
             CHANGE_ADD,
             CHANGE_MODIFY,
